@@ -253,6 +253,16 @@ fn explore(ctx: &mut Ctx) {
         }
     }
     ctx.exhaustive_part("UTF-8 haystacks over {a,é,漢,😀} x every byte window (1..=4 bytes, char-aligned or not) of the haystack as [u8] needle");
+    // chars whose encodings differ in exactly one byte position (first, middle or last), as haystack and as pattern
+    for (set, strs) in gen::one_byte_partner_strings(if q { 3 } else { 4 }) {
+        for h in &strs {
+            for c in &set {
+                let mut buf = [0u8; 4];
+                eval(ctx, h.as_bytes(), c.encode_utf8(&mut buf).as_bytes());
+            }
+        }
+    }
+    ctx.exhaustive_part("one-byte partners: strings of <= 3-4 chars over {c, one partner per byte position of c's encoding, 'a'} for c in {é, 个, 😀} x every member as pattern (char, str and byte kinds)");
     // lead-byte sweep: the char itself (char and str kinds), its successor, its first byte and its tail bytes as patterns
     for s in gen::lead_byte_strings() {
         let hb = s.as_bytes();
@@ -323,6 +333,23 @@ fn explore(ctx: &mut Ctx) {
         }
     }
     ctx.exhaustive_part("near-miss families: 6 needle shapes x every prefix length 1..=24 x every partial-match length k x 3 paddings, forward and mirrored");
+    // haystacks longer than 2^16: the only occurrence starts at an offset around 2^8, 2^15, 2^16 or at the very end
+    {
+        let total = 70_000usize;
+        for needle in [&b"xy"[..], b"x", b"xyzxyzxyw", "\u{4e2a}".as_bytes()] {
+            for at in [0usize, 254, 255, 256, 32_766, 32_767, 32_768, 65_534, 65_535, 65_536, 65_537, total - needle.len() - 1, total - needle.len()] {
+                let mut hay = vec![b'a'; total];
+                hay[at..at + needle.len()].copy_from_slice(needle);
+                eval(ctx, &hay, needle);
+                // and a second occurrence further right (rfind must report that one)
+                if at + 2 * needle.len() + 300 < total {
+                    hay[at + needle.len() + 299..at + 2 * needle.len() + 299].copy_from_slice(needle);
+                    eval(ctx, &hay, needle);
+                }
+            }
+        }
+        ctx.exhaustive_part("haystacks of 70000 bytes x 4 needles whose only / last occurrence starts at offsets around 2^8, 2^15, 2^16 and at the end");
+    }
     // random longer
     let n = ctx.by_tier(150_000, 3_000_000);
     let sym = (2u8..=8).prop_flat_map(|k| {
